@@ -15,7 +15,7 @@ inductive Kind where
   | eachTable      -- the same update applied to every element                         (eachTable_perm)
   | existential    -- `if p(k) { found = true; break }`                                (covered_perm)
   | collectSort    -- guarded append + `sort.Strings` afterwards                       (passes_equiv, sortStrings_perm)
-  | singleSource   -- append what each entry contributes; ≤ 1 entry contributes       (gather_perm; otherwise Out)
+  | singleSource   -- append what each entry contributes; ≤ 1 entry contributes       (gather_perm; otherwise F_structTwice)
   | checkedReverse -- `if dup → Fatal; rev[v] = k`: Fatal in every order, else injective (reverseMapChecked_perm, all inputs)
   | message        -- the order only reaches the `-v` debug line                        (recorded, not file bytes)
   deriving DecidableEq, Repr
